@@ -85,6 +85,12 @@ def _check_read(case):
             calls.append(duration)
             return W.pack([len(calls)] * int(round(duration * rate)), width)
     af = wave.open(fn, "r")
+    if repl == "room-tone":     # a generator that takes its audio from the SAME reader (the start of the recording): it leaves the reader somewhere else
+        def rf(duration):
+            k = int(round(duration * rate))
+            af.setpos(0)
+            got = af.readframes(min(k, N))
+            return got + W.pack([0] * (k - len(got) // width), width)
     try:
         st, fr, _ = call(audio.readFramesAtTimes, af, L if kind == "keep" else None, L if kind == "delete" else None, rf)
     finally:
@@ -132,6 +138,7 @@ def _check_read(case):
             n = round(b - a)  # generated audio of the same duration: round(rate x duration) samples
             ngen += 1
             pieces.append(("gen", n, (lambda k: [0] * k) if repl == "silence" else (lambda k, j=ngen: [j] * k) if repl == "numbered"
+                           else (lambda k: (list(s[:k]) + [0] * k)[:k]) if repl == "room-tone"
                            else (lambda k: _sine(k, width, rate))))
     if repl == "numbered" and len(calls) != ngen:
         return 1, "!", None, [Viol("read-generator-call-count", f"{tag}: the replacement generator was called {len(calls)} times (durations {calls}) for {ngen} "
@@ -491,6 +498,7 @@ def parts(tier):
             for ivs in sets:
                 for kind in ("keep", "delete"):
                     yield (width, rate, ivs, False, kind, "numbered")
+                    yield (width, rate, ivs, False, kind, "room-tone")
         # the same intervals handed over as a tuple, as lists, as a one-shot iterator and as a generator
         for width, rate in combos[:1] + combos[3:4]:
             for ivs in sets:
